@@ -90,7 +90,7 @@ fn execute(id: usize, cid: &str, setup: &CrystalSetup, pol: PolarizationType, ph
     // what the Snell inversion returns on the state the setter sees (the "requested" internal angle of this step)
     let snell_internal = if name == "set_theta_external" {
       guarded({ let bb = beam.clone(); let st = setup.clone(); let a0 = args[0];
-        move || *(Beam::calc_internal_theta_from_external(&bb, a0.abs() * RAD, &st) / RAD) }).ok()
+        move || *(Beam::calc_internal_theta_from_external(&bb, a0 * RAD, &st) / RAD) }).ok()
     } else {
       None
     };
@@ -217,19 +217,22 @@ fn snell_at(cid: &str, crystal: &CrystalType, pol: PolarizationType, ct: f64, cp
   let replica = {
     let b = beam0.clone();
     let st = setup.clone();
-    let snell_external = te.sin();
+    let sign = te.signum();
+    let snell_external = te.sin().abs();
+    let guess = te.abs();
     let phi = b.phi();
     let curve = move |internal: f64| {
-      let direction = direction_from_polar(phi, internal * RAD);
+      let direction = direction_from_polar(phi, sign * internal * RAD);
       let n = st.index_along(b.vacuum_wavelength(), direction, b.polarization());
       (snell_external - (*n) * f64::sin(internal)).abs()
     };
-    let (r, table) = crate::c04::nm_traced(curve, (te, te + 1.0), 100, 0.0, std::f64::consts::FRAC_PI_2, 1e-12);
+    let (r, table) = crate::c04::nm_traced(curve, (guess, guess + 1.0), 100, 0.0, std::f64::consts::FRAC_PI_2, 1e-12);
     let direct = guarded({ let b = beam0.clone(); let st = setup.clone(); move || *(Beam::calc_internal_theta_from_external(&b, te * RAD, &st) / RAD) });
     json!({
       "result": match &r { Ok(x) => json!({"ok": true, "x": fx(*x)}), Err(m) => json!({"ok": false, "panic": m}) },
+      "signed": r.as_ref().ok().map(|x| fx(sign * *x)),
       "table": Value::Array(table.iter().map(|(x, c)| json!([fx(*x), fx(*c)])).collect()),
-      "g0": fx(te), "g1": fx(te + 1.0), "max_iter": 100, "min": fx(0.0), "max": fx(std::f64::consts::FRAC_PI_2), "tol": fx(1e-12),
+      "g0": fx(guess), "g1": fx(guess + 1.0), "max_iter": 100, "min": fx(0.0), "max": fx(std::f64::consts::FRAC_PI_2), "tol": fx(1e-12),
       "direct": direct.ok().map(fx),
     })
   };
@@ -283,8 +286,9 @@ pub fn run(args: &[String]) {
         let bphi = *rng.pick(&[0.0, PI / 2.0, PI, 1.0]);
         snell(&mut rng, cid, crystal, pol, te, bphi, "fixed");
       }
-      for _ in 0..n_snell {
-        let te = rng.range(0.0, 80.0);
+      for k in 0..n_snell {
+        // the property's range is [0, 80] deg; every third draw is the mirrored (negative) angle
+        let te = rng.range(0.0, 80.0) * if k % 3 == 2 { -1.0 } else { 1.0 };
         let bphi = rng.range(0.0, 2.0 * PI);
         snell(&mut rng, cid, crystal, pol, te, bphi, "rand");
       }
